@@ -5,6 +5,7 @@ import (
 	"errors"
 	"fmt"
 	"reflect"
+	"sort"
 	"strings"
 
 	"github.com/graphql-go/graphql/gqlerrors"
@@ -182,8 +183,23 @@ func dethunkMapWithBreadthFirstTraversal(finalResults map[string]interface{}) {
 	}
 }
 
+// responseKeysInOrder lists the keys of a response map in a defined (sorted)
+// order: deferred values are forced, and their errors reported, in that order
+// on every run instead of in the iteration order of the Go map.
+func responseKeysInOrder(m map[string]interface{}) []string {
+	keys := make([]string, 0, len(m))
+	for k := range m {
+		keys = append(keys, k)
+	}
+	if len(keys) > 1 {
+		sort.Strings(keys)
+	}
+	return keys
+}
+
 func dethunkMapBreadthFirst(m map[string]interface{}, dethunkQueue *dethunkQueue) {
-	for k, v := range m {
+	for _, k := range responseKeysInOrder(m) {
+		v := m[k]
 		if f, ok := v.(func() interface{}); ok {
 			m[k] = f()
 		}
@@ -215,7 +231,8 @@ func dethunkListBreadthFirst(list []interface{}, dethunkQueue *dethunkQueue) {
 // to conform to the graphql-js reference implementation, which requires serial (depth-first)
 // implementations for mutation selects.
 func dethunkMapDepthFirst(m map[string]interface{}) {
-	for k, v := range m {
+	for _, k := range responseKeysInOrder(m) {
+		v := m[k]
 		if f, ok := v.(func() interface{}); ok {
 			m[k] = f()
 		}
